@@ -421,22 +421,28 @@ func (m *Machine) applyContract(st *State, fr *Frame, instr ssa.Instruction, fc 
 	// objects handed to the callee may come back in its results / assigned locations
 	st.aliasOK = map[int]bool{}
 	defer func() { st.aliasOK = nil }()
-	for i, a := range args {
-		var refs []*Term
+	argType := func(i int) types.Type {
+		if sig.Recv() != nil {
+			if i == 0 {
+				return sig.Recv().Type()
+			}
+			i--
+		}
 		if i < sig.Params().Len() {
-			m.collectRefs(sig.Params().At(i).Type(), a, &refs)
-		} else if sig.Recv() != nil {
-			m.collectRefs(sig.Recv().Type(), a, &refs)
+			return sig.Params().At(i).Type()
 		}
-		for _, r := range refs {
-			m.markAliasOK(st, r, 0)
+		if sig.Variadic() && sig.Params().Len() > 0 {
+			return sig.Params().At(sig.Params().Len() - 1).Type()
 		}
+		return nil
 	}
-	if fn != nil && sig.Recv() != nil && len(args) > 0 {
-		var refs []*Term
-		m.collectRefs(sig.Recv().Type(), args[0], &refs)
-		for _, r := range refs {
-			m.markAliasOK(st, r, 0)
+	for i, a := range args {
+		if t := argType(i); t != nil {
+			var refs []*Term
+			m.collectRefs(t, a, &refs)
+			for _, r := range refs {
+				m.markAliasOK(st, r, 0)
+			}
 		}
 	}
 	// effects
@@ -453,12 +459,9 @@ func (m *Machine) applyContract(st *State, fr *Frame, instr ssa.Instruction, fc 
 	}
 	if retains && !st.pure {
 		for i, a := range args {
-			if i < sig.Params().Len() {
-				m.escapeValue(st, sig.Params().At(i).Type(), a)
+			if t := argType(i); t != nil {
+				m.escapeValue(st, t, a)
 			}
-		}
-		if fn != nil && sig.Recv() != nil && len(args) > 0 {
-			m.escapeValue(st, sig.Recv().Type(), args[0])
 		}
 		for _, v := range fvals {
 			if p, ok := v.(*Ptr); ok {
@@ -603,6 +606,13 @@ func (m *Machine) contractHavoc(st *State, fr *Frame, fc *FuncContract, name str
 		locs := m.evalLoc(st, fc, name, a, bind)
 		for _, p := range locs {
 			m.frameCheck(st, fr, nil, p, "callee "+name+" assigns "+a)
+			if p.Ref == nil {
+				// every object of the type: the whole field memory is unknown afterwards
+				for _, l := range m.ptrLeaves(p) {
+					m.havocName(st, leafName(p.Mem, l.path), false, nil)
+				}
+				continue
+			}
 			if p.Path == "*" {
 				for _, l := range m.ts.Leaves(p.Elem) {
 					m.setElemArr(st, p.Elem, p.Ref, l, m.ctx.Fresh("hv.elems", ArrSort(m.ts.Idx(), l.sort)))
@@ -619,6 +629,37 @@ func (m *Machine) contractHavoc(st *State, fr *Frame, fc *FuncContract, name str
 // where root is a parameter / captured variable of the callee.
 func (m *Machine) evalLoc(st *State, fc *FuncContract, name, expr string, bind map[string]Value) []*Ptr {
 	e := strings.TrimSpace(expr)
+	if strings.HasPrefix(e, "any ") {
+		// any T.path: that field of every object of type T
+		f := strings.TrimSpace(e[4:])
+		tn, path, _ := strings.Cut(f, ".")
+		obj := m.ts.pkg.Scope().Lookup(tn)
+		if obj == nil {
+			m.problem("%s: assigns %q: unknown type", fc.Line, expr)
+			return nil
+		}
+		cur := &Ptr{Mem: tn, Ref: nil, Elem: obj.Type()}
+		for _, fld := range strings.Split(path, ".") {
+			if fld == "" {
+				continue
+			}
+			stt, ok := cur.Elem.Underlying().(*types.Struct)
+			found := false
+			if ok {
+				for j := 0; j < stt.NumFields(); j++ {
+					if stt.Field(j).Name() == fld {
+						cur = &Ptr{Mem: tn, Path: joinPath(cur.Path, fld), Elem: stt.Field(j).Type()}
+						found = true
+					}
+				}
+			}
+			if !found {
+				m.problem("%s: assigns %q: no field %q", fc.Line, expr, fld)
+				return nil
+			}
+		}
+		return []*Ptr{cur}
+	}
 	if strings.HasSuffix(e, "[*]") {
 		// all elements of a slice-valued expression
 		base := strings.TrimSpace(strings.TrimSuffix(e, "[*]"))
@@ -1346,10 +1387,10 @@ func (m *Machine) frameCheck(st *State, fr *Frame, ins ssa.Instruction, p *Ptr, 
 	if st.pure || m.fc == nil || !m.fc.HasAssigns || m.refute {
 		return
 	}
-	if m.isFreshRef(st, p.Ref) {
+	if p.Ref != nil && m.isFreshRef(st, p.Ref) {
 		return
 	}
-	if p.Ref.op == "ite" {
+	if p.Ref != nil && p.Ref.op == "ite" {
 		// e.g. append target: in place or fresh
 		allFresh := true
 		var walk func(t *Term)
@@ -1371,7 +1412,7 @@ func (m *Machine) frameCheck(st *State, fr *Frame, ins ssa.Instruction, p *Ptr, 
 		first = first[:i]
 	}
 	for _, g := range m.P.Contracts.Guards {
-		if g.Field == p.Mem+"."+first {
+		if g.Kind == "by" && g.Field == p.Mem+"."+first {
 			return // guarded (or role-confined) field: discipline is checked by guard.* obligations; callers treat it as volatile
 		}
 	}
@@ -1384,6 +1425,12 @@ func (m *Machine) frameCheck(st *State, fr *Frame, ins ssa.Instruction, p *Ptr, 
 			continue
 		}
 		if a.Path == "*" || a.Path == "" || a.Path == p.Path || strings.HasPrefix(p.Path, a.Path+".") {
+			if a.Ref == nil {
+				return // "any T.f"
+			}
+			if p.Ref == nil {
+				continue
+			}
 			alts = append(alts, m.ctx.Eq(a.Ref, p.Ref))
 		}
 	}
